@@ -157,6 +157,15 @@ def faults(fname, table, kw, jargs, bulk, populated):
         existing = {"junction": 2, "pipe": 3, "sink": 4, "ext_grid": 1, "valve": 2}.get(table)
         if existing is not None and (populated or table == "junction"):
             out.append(("duplicate_index", "index", dict(copy.deepcopy(kw), index=existing)))
+    # values that cannot be stored in the column: None for a boolean flag, text for a number
+    n_el = (kw.get("nr_junctions") or len(next(v for v in kw.values() if isinstance(v, list)))) if bulk else 1
+    out.append(("none_for_bool", "in_service", dict(copy.deepcopy(kw), in_service=([True] * (n_el - 1) + [None]) if bulk else None)))
+    num = next((a for a, v in kw.items() if a not in jargs and a != "nr_junctions" and (
+        isinstance(v, float) or (isinstance(v, list) and v and isinstance(v[0], float)))), None)
+    if num is not None:
+        k2 = copy.deepcopy(kw)
+        k2[num] = "abc" if not isinstance(k2[num], list) else k2[num][:-1] + ["abc"]
+        out.append(("text_for_number", num, k2))
     if "std_type" in kw:
         out.append(("unknown_std_type", "std_type", dict(copy.deepcopy(kw), std_type="no_such_type")))
     if fname in ("create_junction", "create_junctions"):
@@ -297,7 +306,9 @@ def run_case(case):
                 if n2 == nrows:
                     vs.append(viol("silent_noop", "%s neither raised nor added rows (returned %r)" % (where, ret), **tag))
                 else:
-                    if fault != "not_controllable":  # accepting it is fine, only a silent no-op is not
+                    # accepting these is fine (None is coerced with bool() by the single functions; a non-controllable
+                    # controller may be created): only a silent no-op or a non-atomic refusal is not
+                    if fault not in ("not_controllable", "none_for_bool"):
                         vs.append(viol("invalid_call_accepted", "%s was accepted (%d rows added)" % (where, n2 - nrows), **tag))
             return {"status": "ok", "violations": vs, "nontrivial": True, "sig": core.jhash(case)}
         # valid call: defaults omitted
